@@ -283,10 +283,10 @@ func ecdsaProperty(t *testing.T, names []string, quick, thorough int) {
 
 func TestECDSASecp256k1(t *testing.T) {
 	t.Parallel()
-	ecdsaProperty(t, []string{"secp256k1"}, 60, 4000)
+	ecdsaProperty(t, []string{"secp256k1"}, 60, 1500)
 }
 
 func TestECDSANist(t *testing.T) {
 	t.Parallel()
-	ecdsaProperty(t, []string{"p256", "p256", "p256", "p384"}, 24, 1500)
+	ecdsaProperty(t, []string{"p256", "p256", "p256", "p384"}, 24, 500)
 }
